@@ -36,8 +36,8 @@ RULE = ("sessions = seeded random interleavings of steps over a query pool large
         "before the observation; distinct by (session, query)")
 ASSUMPTIONS = ["the fresh interpreter's observation is the reference", "dataset rewrites change the row count (timestamp granularity is not what is tested)"]
 CONFIG = {
-    "quick": {"budget_s": 55, "sessions": 16, "pool": 36, "steps": 70, "observe": 7, "case_timeout_s": 170},
-    "thorough": {"budget_s": 660, "sessions": 300, "pool": 60, "steps": 220, "observe": 24, "case_timeout_s": 600},
+    "quick": {"budget_s": 55, "sessions": 16, "pool": 36, "steps": 70, "observe": 7, "case_timeout_s": 900},
+    "thorough": {"budget_s": 660, "sessions": 120, "pool": 60, "steps": 220, "observe": 24, "case_timeout_s": 600},
 }
 TIER = {"t": "quick"}
 
@@ -232,7 +232,7 @@ def run_case(case):
             env["PYTHONPATH"] = VERIF_DIR + (os.pathsep + env["PYTHONPATH"] if env.get("PYTHONPATH") else "")
             env["PYTHONHASHSEED"] = ["random", "1", "2"][qi % 3]
             try:
-                r = subprocess.run([sys.executable, "-W", "ignore", "-m", "vmon.observer", path], env=env, capture_output=True, text=True, timeout=100)
+                r = subprocess.run([sys.executable, "-W", "ignore", "-m", "vmon.observer", path], env=env, capture_output=True, text=True, timeout=400)
             except subprocess.TimeoutExpired:
                 bump("observer_timeout")
                 continue
